@@ -335,6 +335,7 @@ func runC09(c *Checker) {
 	_ = sort.Strings
 	c.runS35RoundTrip(c.Tier == "thorough")
 	c.runS35Setters(c.Tier == "thorough")
+	c.runS35Toggles()
 	c.runS35Build()
 }
 
